@@ -1652,6 +1652,9 @@ class TCPConnector(BaseConnector):
             except BaseException:
                 proxy_resp.close()
                 conn.close()
+                # A connector that has been closed meanwhile does not close
+                # what is handed back to it, and never knew this connection.
+                transport.close()
                 raise
             else:
                 conn._protocol = None
